@@ -33,6 +33,36 @@ class RegC( Component ):
     @update_ff
     def up_regc():
       s.out <<= s.in_
+class Lane( Component ):
+  # several instances per design, with different construct-time constants used as list indices inside the blocks
+  def construct( s, nbits, n, k ):
+    s.in_ = InPort( nbits ); s.out = OutPort( nbits )
+    s.regs = [ Wire( nbits ) for _ in range(n) ]
+    s.taps = [ Wire( nbits ) for _ in range(n) ]
+    j = ( k + 1 ) % n
+    @update_ff
+    def up_lane_ff():
+      s.regs[k] <<= s.in_
+      s.regs[j] <<= s.regs[k]
+    @update
+    def up_lane_tap():
+      s.taps[k] @= s.regs[k] ^ s.in_
+    @update
+    def up_lane_out():
+      s.out @= s.taps[k] + s.regs[j]
+class Tie( Component ):
+  # constants tied to a slice and to a struct field, the rest driven; instantiated more than once with equal parameters
+  def construct( s, c ):
+    s.in_ = InPort( 8 ); s.out = OutPort( 8 ); s.o2 = OutPort( 4 )
+    s.y = Wire( 8 ); s.q = Wire( Pt )
+    s.y[0:3] //= c
+    s.y[3:8] //= s.in_[3:8]
+    s.q.b //= c + 1
+    s.q.a //= s.in_
+    @update
+    def up_tie():
+      s.out @= s.y ^ s.q.a
+      s.o2 @= s.q.b
 '''
 # leaf units of the struct types: (path, width)
 STRUCT_UNITS = {'Pt': [('a', 8), ('b', 4)], 'Outer': [('p.a', 8), ('p.b', 4), ('c', 4)]}
@@ -182,6 +212,25 @@ class Gen:
       r = rng.random()
       if s.with_children and r < 0.15:
         cw = s.w(); cn = f'c{len(children)}'; kind = rng.choice(['Inc', 'Inc', 'RegC']) if s.with_ff else 'Inc'
+        if rng.random() < 0.35:
+          # two or three instances of one parametrised class
+          src8 = [a for a in s.avail if a[1] == 8 and a[2] is True]
+          if src8:
+            if s.with_ff and rng.random() < 0.5:
+              n_ = rng.randrange(2, 5); ks = rng.sample(range(n_), min(n_, rng.randrange(2, 4)))
+              for k_ in ks:
+                cn = f'c{len(children)}'
+                s.lines += [f's.{cn} = Lane( 8, {n_}, {k_} )', f'connect( s.{cn}.in_, {rng.choice(src8)[0]} )']
+                s.avail.append((f's.{cn}.out', 8, True)); children.append(cn)
+              s.features.add('child:Lane-instances-with-different-constants')
+            else:
+              c_ = rng.randrange(0, 7)
+              for _ in range(rng.randrange(2, 4)):
+                cn = f'c{len(children)}'
+                s.lines += [f's.{cn} = Tie( {c_} )', f'connect( s.{cn}.in_, {rng.choice(src8)[0]} )']
+                s.avail.append((f's.{cn}.out', 8, True)); s.avail.append((f's.{cn}.o2', 4, True)); children.append(cn)
+              s.features.add('child:Tie-instances-with-constant-tie-offs')
+            continue
         srcs = [a for a in s.avail if a[1] == cw and a[2] is True]
         if not srcs: continue
         s.lines.append(f's.{cn} = {kind}( {cw} )')
@@ -205,6 +254,9 @@ class Gen:
           t, w, st = g[0]
           if st: srcs = [a for a in s.avail if a[2] == 'struct:' + st]
           else:  srcs = [a for a in s.avail if a[1] == w and a[2] is True]
+          if st is None and rng.random() < 0.3:
+            # a constant tied to the unit (whole signal, slice or field)
+            s.lines.append(f'connect( {t}, {rng.randrange(0, 1 << min(w, 6))} )'); s.features.add('constant-tie-off'); continue
           if srcs:
             s.lines.append(f'connect( {t}, {rng.choice(srcs)[0]} )'); s.features.add('net'); continue
         bn = f'b{bi}'; bi += 1
@@ -459,7 +511,7 @@ def field_interval(parent_type, name, indices):
   inst = parent_type()
   f = getattr(inst, name)
   holder, key = inst, name
-  for ix in indices:
+  for ix in (indices or []):
     holder, key = f, ix; f = f[ix]
   ones_t = type(f)
   if hasattr(f, '_uint'):
@@ -568,13 +620,20 @@ class OrderTracer:
   """records which update blocks / net blocks run, in order, while fn() executes"""
   def __init__(s, top, blocks):
     s.keys = {}
+    s.multi = {}; s.turn = {}
     bycode = {}
     for i, b in enumerate(blocks):
       host = None
       if b not in top._dag.genblks:
         try: host = top.get_update_block_host_component(b)
         except Exception: host = None
-      s.keys[(b.__code__, id(host) if host is not None else None)] = i
+        s.keys[(b.__code__, id(host) if host is not None else None)] = i
+      else:
+        # generated net blocks: equal source text gives EQUAL code objects (constants tied in several instances of one
+        # class); they differ in the component bound to `s` in their globals
+        # (whole-signal constant ties compile to EMPTY functions: equal code AND equal globals; such no-ops are
+        # indistinguishable and are numbered in turn)
+        s.multi.setdefault((b.__code__, ('g', id(b.__globals__.get('s')))), []).append(i)
       bycode.setdefault(b.__code__, []).append(i)
     s.unique = {c: l[0] for c, l in bycode.items() if len(l) == 1}
     s.codes = set(bycode)
@@ -586,9 +645,15 @@ class OrderTracer:
         # several instances of one class share the code object: tell them apart by the captured component
         h = frame.f_locals.get('s')
         i = s.keys.get((frame.f_code, id(h)))
+        if i is None:
+          k_ = (frame.f_code, ('g', id(frame.f_globals.get('s'))))
+          l_ = s.multi.get(k_)
+          if l_:
+            t_ = s.turn.get(k_, 0); s.turn[k_] = t_ + 1
+            i = l_[t_ % len(l_)]
       if i is not None: s.order.append(i)
   def run(s, fn):
-    s.order = []
+    s.order = []; s.turn = {}
     sys.setprofile(s._prof)
     try: fn()
     finally: sys.setprofile(None)
